@@ -96,6 +96,7 @@ func (o *Operations) Move(from string, to string) error {
 
 		hdr.Size = 0 // Don't try to seek after the record
 		hdr.Name = path.Join(to, strings.TrimPrefix(strings.TrimPrefix(dbhdr.Name, "/"), strings.TrimPrefix(from, "/")))
+		delete(hdr.PAXRecords, records.STFSRecordReplacesContent) // A move never carries content, even if the last update of the entry did
 		hdr.PAXRecords[records.STFSRecordVersion] = records.STFSRecordVersion1
 		hdr.PAXRecords[records.STFSRecordAction] = records.STFSRecordActionUpdate
 		hdr.PAXRecords[records.STFSRecordReplacesName] = dbhdr.Name
